@@ -145,7 +145,7 @@ Qed.
 (** * one step *)
 Lemma rebuild_cache seed st st' : rebuild seed st = Some st' -> st_cache st' = st_cache st.
 Proof.
-  unfold rebuild. destruct (close _ st [seed] [seed] []) as [[ns es] [|]]; [|discriminate].
+  unfold rebuild. destruct (close _ st seed seed []) as [[ns es] [|]]; [|discriminate].
   intros H; inversion H; reflexivity.
 Qed.
 
